@@ -690,6 +690,25 @@ def run(spec, rec, spin):
                                 "%s; is_solution_valid(%r) = %r, recorded relations %r give %r" % (
                                     ctx, sol, got, [(rl, pt, ref.ref_value(pt, xs[r])) for rl, pt in recorded], want))
         rec.add("validity_checks", rows)
+        # a solution that only covers the variables occurring in the model's terms (what a solver returns): a recorded
+        # constraint that is true on every assignment needs none of its variables, so its missing labels must not matter
+        in_terms = {l for k in after for l in k}
+        missing = [l for l in labels if l not in in_terms]
+        if missing:
+            always = []
+            for rl, pt in recorded:
+                t_ = ref.table(pt, labels, spin)
+                always.append(all(ref.REL[rl](v) for v in t_))
+            if all(a for (rl, pt), a in zip(recorded, always) if any(l in missing for l in ref.labels_of(pt))):
+                r = abits % rows
+                sol = {l: v for l, v in xs[r].items() if l in in_terms}
+                want = all(ref.REL[rl](ref.ref_value(pt, xs[r])) for (rl, pt), a in zip(recorded, always) if not a)
+                got = lib(M.is_solution_valid, sol, what="is_solution_valid(solution over the model's variables)")
+                if bool(got) != want:
+                    raise Violation("is_solution_valid_partial_%s" % ("accepts_invalid" if got else "rejects_valid"),
+                                    "%s; is_solution_valid(%r) = %r (labels %r occur in no term and only in constraints "
+                                    "that always hold), expected %r" % (ctx, sol, got, missing, want))
+                rec.add("validity_checks_partial_solution")
 
     # the model that was copied mid-way knows nothing of what happened to its copy afterwards
     if left_behind is not None:
